@@ -11,6 +11,7 @@ import (
 	"hash/adler32"
 	"hash/crc32"
 	"hash/fnv"
+	"net/http"
 	"os"
 	"os/exec"
 	"path/filepath"
@@ -20,6 +21,7 @@ import (
 
 	"github.com/practable/relay/verifharness/cmd/c03/hubkit"
 	"github.com/practable/relay/verifharness/lib"
+	log "github.com/sirupsen/logrus"
 )
 
 type Op struct {
@@ -35,6 +37,16 @@ type Op struct {
 	Fill   int      `json:"fill,omitempty"` // send: bytes of filler derived from (id, sender, seq) after the header
 	NB     bool     `json:"nb,omitempty"`   // send: no waiting afterwards (burst)
 	Size   int      `json:"size,omitempty"` // send: total payload size in bytes (header + filler), 0 = just the header
+	PX     string   `json:"px,omitempty"`   // the token's connection type when it is not "session" (e.g. shell): such a connection lives in its own realm
+}
+
+// realm is what a connection may exchange messages within: its topic, and for a connection type other
+// than session the type as well (a /shell/<id> connection has nothing to do with /session/<id>)
+func realm(px, tt string) string {
+	if px == "" {
+		return tt
+	}
+	return px + "|" + tt
 }
 
 type Seen struct {
@@ -49,18 +61,20 @@ type Case struct {
 	Ops     []Op   `json:"ops"`
 	Seen    []Seen `json:"seen"`
 	Kind    string `json:"kind"`
-	Cap     int    `json:"cap,omitempty"` // lagfull: BufferSize of the (child) relay
+	Cap     int    `json:"cap,omitempty"`   // lagfull: BufferSize of the (child) relay
+	Level   string `json:"level,omitempty"` // log level the relay ran this case at
 	Discard string `json:"discard,omitempty"`
 }
 
 func (o Op) payload() []byte {
+	tf := realm(o.PX, o.TT)
 	if o.Size > 0 {
-		return hubkit.PayloadSized(o.ID, o.N, o.Seq, o.TT, o.Size)
+		return hubkit.PayloadSized(o.ID, o.N, o.Seq, tf, o.Size)
 	}
 	if o.Fill > 0 {
-		return hubkit.PayloadFill(o.ID, o.N, o.Seq, o.TT, o.Fill)
+		return hubkit.PayloadFill(o.ID, o.N, o.Seq, tf, o.Fill)
 	}
-	return hubkit.Payload(o.ID, o.N, o.Seq, o.TT)
+	return hubkit.Payload(o.ID, o.N, o.Seq, tf)
 }
 
 const bufferSize = 128
@@ -165,6 +179,7 @@ var continued = map[string][]string{
 type slot struct {
 	tt   string
 	name uint64 // 0 = not connected
+	px   string // connection type of the slot's tokens when not session
 }
 
 var nextName uint64 = 100
@@ -251,6 +266,15 @@ func genHistory(r *lib.Rng) []Op {
 			slots = append(slots, &slot{tt: t})
 		}
 	}
+	if r.Chance(1, 4) {
+		// another connection type on the SAME topic string as a running session: a token of type shell
+		// (or a look-alike of session) presenting its code on the URI the access API gave it
+		t := chosen[r.Intn(len(chosen))]
+		px := []string{"shell", "shell", "Session", "sessions"}[r.Intn(4)]
+		for k := r.Range(1, 2); k > 0; k-- {
+			slots = append(slots, &slot{tt: t, px: px})
+		}
+	}
 	var ops []Op
 	seq := 0
 	n := r.Range(18, 32)
@@ -264,14 +288,18 @@ func genHistory(r *lib.Rng) []Op {
 			}
 			nextName++
 			s.name = nextName
-			ops = append(ops, Op{K: "join", N: s.name, TT: s.tt, Path: pathFor(r, s.tt, chosen), Scopes: []string{"read", "write"}})
+			if s.px != "" {
+				ops = append(ops, Op{K: "join", N: s.name, TT: s.tt, Path: "/" + s.px + "/" + s.tt, Scopes: []string{"read", "write"}, PX: s.px})
+			} else {
+				ops = append(ops, Op{K: "join", N: s.name, TT: s.tt, Path: pathFor(r, s.tt, chosen), Scopes: []string{"read", "write"}})
+			}
 		case x < 12:
 			ops = append(ops, Op{K: "leave", N: s.name})
 			s.name = 0
 		default:
 			seq++
 			nextID++
-			o := Op{K: "send", N: s.name, TT: s.tt, MT: 1 + r.Intn(2), ID: nextID, Seq: seq}
+			o := Op{K: "send", N: s.name, TT: s.tt, MT: 1 + r.Intn(2), ID: nextID, Seq: seq, PX: s.px}
 			if r.Chance(1, 8) { // sizes around the length-encoding and write-buffer boundaries, and a large one
 				o.Size = hubkit.Thresholds[2+r.Intn(len(hubkit.Thresholds)-2)]
 			}
@@ -430,7 +458,14 @@ func runCase(k *hubkit.Kit, c *Case, res *lib.Result) []*hubkit.Peer {
 			if o.Slow {
 				buf = 4096
 			}
-			p := k.JoinBuf(o.N, o.TT, o.Path, o.Scopes, digest, buf)
+			var p *hubkit.Peer
+			if o.PX != "" {
+				p = k.IssuePrefix(o.N, o.TT, o.Scopes, o.PX)
+				k.Connect(p, o.Path, digest, buf)
+				res.Count("join:type-" + o.PX + ":" + map[bool]string{true: "registered", false: "refused-" + p.Refused}[p.Refused == ""])
+			} else {
+				p = k.JoinBuf(o.N, o.TT, o.Path, o.Scopes, digest, buf)
+			}
 			peers[o.N] = p
 			order = append(order, p)
 			res.Count("join:" + map[bool]string{true: "registered", false: "refused-" + p.Refused}[p.Refused == ""])
@@ -520,13 +555,14 @@ func oracle(c Case, idx int, peers []*hubkit.Peer, res *lib.Result) {
 			res.Violate(v)
 		}
 	}
-	sentAt, joinedAt := map[uint64]int{}, map[uint64]int{}
+	sentAt, joinedAt, realmOf := map[uint64]int{}, map[uint64]int{}, map[uint64]string{}
 	for i, o := range c.Ops {
 		switch o.K {
 		case "send":
 			sentAt[o.ID] = i
 		case "join":
 			joinedAt[o.N] = i
+			realmOf[o.N] = realm(o.PX, o.TT)
 		}
 	}
 	if c.Kind == "audience" || c.Kind == "audience-small" {
@@ -594,9 +630,9 @@ func oracle(c Case, idx int, peers []*hubkit.Peer, res *lib.Result) {
 			if t.Sender == p.Name {
 				viol(lib.Violation{Clause: "echo", Case: idx, Key: "echo",
 					Detail: fmt.Sprintf("connection %d (topic %q) received its own message id %d", p.Name, p.TokenTopic, t.ID), Replay: c})
-			} else if t.Topic != p.TokenTopic {
+			} else if t.Topic != realmOf[p.Name] {
 				viol(lib.Violation{Clause: "cross-topic", Case: idx, Key: "cross-topic",
-					Detail: fmt.Sprintf("connection %d joined to topic %q received message id %d sent on topic %q by %d", p.Name, p.TokenTopic, t.ID, t.Topic, t.Sender), Replay: c})
+					Detail: fmt.Sprintf("connection %d joined to topic %q received message id %d sent on topic %q by %d", p.Name, realmOf[p.Name], t.ID, t.Topic, t.Sender), Replay: c})
 			}
 		}
 		if p.Refused != "" && p.NFrames() > 0 {
@@ -721,6 +757,16 @@ func genLagFull(r *lib.Rng) []Op {
 			send(xs[r.Intn(len(xs))], tA, r.Range(40, 3000), false)
 		}
 	}
+	// the lagging connection has been dropped as a slow reader by now, but the relay's writer for it is
+	// still stuck in the socket write, so its reader is still served: it publishes once more, and
+	// right after that others send, on its topic and on another one
+	for k := r.Range(1, 2); k > 0; k-- {
+		send(lag, tA, r.Range(40, 200), true)
+	}
+	ops = append(ops, Op{K: "pause"})
+	send(ys[r.Intn(len(ys))], tB, r.Range(40, 300), false)
+	send(xs[r.Intn(len(xs))], tA, r.Range(40, 300), false)
+	send(ys[r.Intn(len(ys))], tB, r.Range(40, 300), false)
 	ops = append(ops, Op{K: "pause"}) // anything the relay does about the full queue a little later
 	if r.Bool() {
 		ops = append(ops, Op{K: "unstall", N: lag})
@@ -869,6 +915,22 @@ type childIO struct {
 // execCases runs the cases on the relay behind k, judges them and fills res.
 func execCases(k *hubkit.Kit, cases []Case, res *lib.Result, base int) {
 	for i := range cases {
+		// environment that must not matter: the relay's log level, proxy / tracing headers (every other case
+		// gives ALL its connections the same forwarded address and ids), permessage-deflate offered
+		if cases[i].Level == "" {
+			cases[i].Level = []string{"panic", "trace", "debug", "panic"}[(base+i)%4]
+		}
+		if lv, err := log.ParseLevel(cases[i].Level); err == nil {
+			log.SetLevel(lv)
+		}
+		res.Count("log-level:" + cases[i].Level)
+		si := uint64(base + i)
+		if si%2 == 0 {
+			k.Headers = func(*hubkit.Peer) http.Header { return hubkit.ProxyHeaders(4*si + 1) }
+		} else {
+			k.Headers = func(p *hubkit.Peer) http.Header { return hubkit.ProxyHeaders(p.Name + si) }
+		}
+		k.Compress = func(p *hubkit.Peer) bool { return (p.Name+si)%3 == 0 }
 		peers := runCase(k, &cases[i], res)
 		oracle(cases[i], base+i, peers, res)
 		for _, p := range peers {
@@ -969,11 +1031,11 @@ func main() {
 			cases = []Case{c}
 		}
 	} else {
-		n := a.Pick(200, 1500)
+		n := a.Pick(170, 1500)
 		for i := 0; i < n; i++ {
 			cases = append(cases, Case{Ops: genHistory(rng.Fork()), Kind: "history"})
 		}
-		for i, m := 0, a.Pick(30, 300); i < m; i++ {
+		for i, m := 0, a.Pick(24, 300); i < m; i++ {
 			cases = append(cases, Case{Ops: genLag(rng.Fork()), Kind: "lag"})
 		}
 		for i, m := 0, a.Pick(10, 120); i < m; i++ {
